@@ -355,8 +355,9 @@ func (rf *ReplicaFollower) handleResp(err error, resp *pb.SyncResponse, args ...
 			if len(args) == 1 {
 				runId := args[0].(string)
 				rf.channel.DelRunId(runId)
-				err = fmt.Errorf("code is error : %s", resp.GetMeta().GetMsg())
 			}
+			// a CLEAR reply is never the meta data of a transfer : report it, the caller starts over
+			err = fmt.Errorf("code is clear : %s", resp.GetMeta().GetMsg())
 			rf.wait.Sleep(1 * time.Second)
 		}
 	}
